@@ -7,7 +7,7 @@
 //   "X ..."  what the fed model *means* (the property oracle's expectation; computed from the generator's
 //            own data structure, independently of writer, reader and Lean model)
 //   "N ..."  names files round trip (.row/.col read back with mp::NameProvider)
-//   "G ..."  number codec test lines (g_fmt -> strtod; "%.17g" -> strtod for vbtol), summary only
+//   "G ..."  number codec test (g_fmt -> strtod) on random doubles, "T ..." on constructed boundary cases; summaries only
 //   "# ..."  statistics
 // Modes: argv[1] = quick|thorough, argv[2] = seed, argv[3] = scratch dir, optional argv[4] = "probe-intmin"
 #include <cstdio>
@@ -852,6 +852,64 @@ static void codec_test(long n) {
   std::printf("G tested=%ld bad=%ld first=%s\n", tested, bad, bad ? first_bad.c_str() : "-");
 }
 
+// constructed stream: doubles whose shortest decimal candidate lies exactly on, or next to, the rounding boundary x +- ulp/2
+//  (a) integer-valued doubles x = m*2^e >= 2^53 for which T = x +- 2^(e-1) is a short decimal d*10^k (T = q*2^(e-1)*5^k, q odd):
+//      both neighbours of T are tested, one has an odd and one an even significand;
+//  (b) neighbours (0, +-1, +-2 ulp) of short decimals d*10^k over the whole exponent range;
+//  (c) a fixed list.
+// Output: "T tested=.. bad=.. ties=.. first=<hex x> <printed> <hex read back> tie=<0|1>"
+static void codec_boundary_test(long n) {
+  long bad = 0, tested = 0, ties = 0; std::string first_bad;
+  fmt::Locale loc;
+  auto one = [&](double x, bool on_tie) {
+    if (std::isnan(x) || std::isinf(x)) return;
+    char buf[64];
+    DAVID_GAY_GFMT::g_fmt(buf, x, 0);
+    const char *p = buf;
+    double y = loc.strtod(p);
+    ++tested;
+    bool ok = (x == 0 && y == 0) || (hexd(x) == hexd(y) && *p == 0);
+    if (!ok) {
+      if (on_tie) ++ties;
+      if (!bad || (on_tie && first_bad.find("tie=1") == std::string::npos))
+        first_bad = hexd(x) + " " + buf + " " + hexd(y) + (on_tie ? " tie=1" : " tie=0");
+      ++bad;
+    }
+  };
+  static uint64_t p5[23]; p5[0] = 1; for (int i = 1; i < 23; ++i) p5[i] = p5[i - 1] * 5;
+  for (long i = 0; i < n; ++i) {
+    uint64_t r = rnd();
+    if (i % 3 != 2) {
+      // (a)  T = q * 5^k * 2^v,  v = e-1,  q*5^k odd in [2^53, 2^54)  =>  x_lo/hi = ((q*5^k -+ 1)/2) * 2^e
+      int k = 1 + int(r % 22);                    // 5^k <= 5^22 < 2^53
+      int e = k + 1 + int((r >> 8) % 4);          // v = e-1 >= k, so that 10^k divides T; d = q*2^(v-k) stays short
+      if (coin(20)) e = 2 + int((r >> 16) % 60);  // any exponent
+      uint64_t lo = ((1ULL << 53) + p5[k] - 1) / p5[k], hi = ((1ULL << 54) - 1) / p5[k];
+      if (hi < lo) continue;
+      uint64_t q = lo + (rnd() % (hi - lo + 1));
+      q |= 1; if (q > hi) q -= 2; if (q < lo) continue;
+      uint64_t odd = q * p5[k];                   // in [2^53, 2^54), odd
+      one(std::ldexp((double)((odd - 1) / 2), e), true);
+      one(std::ldexp((double)((odd + 1) / 2), e), true);
+    } else {
+      // (b) neighbours of short decimals
+      int nd = 1 + int(r % 12);
+      uint64_t d = 1 + (rnd() % 999999999999ULL); for (int j = 12; j > nd; --j) d /= 10; if (!d) d = 1;
+      int ex = int((r >> 20) % 620) - 310;
+      char sb[64]; std::snprintf(sb, sizeof sb, "%llue%d", (unsigned long long)d, ex);
+      double y = std::strtod(sb, nullptr);
+      if (coin(50)) y = -y;
+      one(y, false);
+      double a = y, b = y;
+      for (int j = 0; j < 2; ++j) { a = std::nextafter(a, INFINITY); b = std::nextafter(b, -INFINITY); one(a, false); one(b, false); }
+    }
+  }
+  const double fx[] = {4611686018999999488.0, -4611686018999999488.0, 4611686019000000512.0, 9007199254740992.0, 9007199254740994.0,
+                       18014398509481984.0, 1e22, 1e23, 9.999999999999999e22, 5e-324, 1.7976931348623157e308, 2.2250738585072014e-308};
+  for (double x : fx) one(x, x == 4611686018999999488.0 || x == -4611686018999999488.0);
+  std::printf("T tested=%ld bad=%ld ties=%ld first=%s\n", tested, bad, ties, bad ? first_bad.c_str() : "-");
+}
+
 // ---------------------------------------------------------------- main
 int main(int argc, char **argv) {
   std::string tier = argc > 1 ? argv[1] : "quick";
@@ -876,6 +934,16 @@ int main(int argc, char **argv) {
     std::fflush(stdout);
     run_one(m, 0, 0, false, true, 1, 0);
     std::printf("# probe-call0 survived\n");
+    return 0;
+  }
+  if (mode == "probe-tie") {      // separate process: the double 4611686018999999488 through the real writer and reader
+    GModel m = gen_model(1, 0);
+    double t = 4611686018999999488.0;
+    m.vb[0] = {-t, t};
+    m.has_x0 = true; m.x0.clear(); m.x0.push_back({0, t});
+    serialise(m, 0);
+    run_one(m, 0, 0, false, true, 1, 0);
+    run_one(m, 0, 1, false, true, 1, 0);
     return 0;
   }
   if (mode == "probe-intmin") {   // separate process: "%d" of INT_MIN in text mode
@@ -914,6 +982,7 @@ int main(int argc, char **argv) {
     hist["nv=" + itos(std::min(m.h.num_vars, 10))]++;
   }
   codec_test(thorough ? 20000000 : 1000000);
+  codec_boundary_test(thorough ? 12000000 : 450000);
   std::printf("# models=%ld runs=%ld expr_nodes=%ld\n", stat_models, stat_runs, stat_nodes);
   for (int i = 0; i < NOPS; ++i) std::printf("# opused %s %ld\n", OPS[i].name, op_used[i]);
   for (int i = 0; i < 14; ++i) std::printf("# dblclass %d %ld\n", i, dbl_class[i]);
